@@ -52,6 +52,33 @@ def orderOK {V : Type} : List (Block V) → Bool
     rest.all (fun c => !OverlapsTimeRange b.entry c.entry.MinTime c.entry.MaxTime || decide (b.file < c.file))
       && orderOK rest
 
+/-! ## sort.Sort for at most 12 elements
+
+  Go's sort.Sort (pdqsort) runs `insertionSort(data, 0, n)` when `n <= 12`
+  (sort/zsortinterface.go).  That much of it is modelled, so that for up to 12 locations the
+  order of `seeks` is a THEOREM (Influx.Props.C06.C06_insertion) instead of a hypothesis; the
+  oracle reports whether the observed order is this one. -/
+
+/-- ascLocations.Less / descLocations.Less (file index order = path order) -/
+def lessLoc {V : Type} (asc : Bool) (a b : Block V) : Bool :=
+  if OverlapsTimeRange a.entry b.entry.MinTime b.entry.MaxTime then decide (a.file < b.file)
+  else if asc then decide (a.entry.MinTime < b.entry.MinTime)
+  else decide (a.entry.MaxTime < b.entry.MaxTime)
+
+/-- inner loop of insertionSort: `for j := i; j > a && less(j, j-1); j-- { swap(j, j-1) }`;
+    the sorted prefix is passed reversed (its last element first) -/
+def insGo {α : Type} (less : α → α → Bool) (x : α) : List α → List α
+  | [] => [x]
+  | y :: ys => if less x y then y :: insGo less x ys else x :: y :: ys
+
+/-- sort.insertionSort -/
+def insertionSort {α : Type} (less : α → α → Bool) (l : List α) : List α :=
+  (l.foldl (fun rp x => insGo less x rp) []).reverse
+
+/-- `seeks` as newKeyCursor builds it when sort.Sort is an insertion sort -/
+def seeksSorted (files : List FileSpec) (t : Int) (asc : Bool) : Option (List (Block Nat)) :=
+  (fileStates files).map fun sts => insertionSort (lessLoc asc) (locations sts t asc)
+
 inductive RunErr where
   | emptyBlock | badOrder | stuck
 deriving Repr, DecidableEq
